@@ -439,6 +439,28 @@ def m_int_op_trait(ex, st, callee, args, dty, m):
     return ("__fork__", [(z3.Not(ov), val), (ov, PathEnd("panic", what))])
 
 
+# ---------------------------------------------------------------- mem::swap / replace / take
+@model(r"(?:std|core)::mem::swap::<.*>$")
+def m_mem_swap(ex, st, callee, args, dty, m):
+    a, b = args
+    if not (isinstance(a, Ref) and isinstance(b, Ref)):
+        return NotImplemented
+    va, vb = ex.get_path(a.cell, a.path), ex.get_path(b.cell, b.path)
+    ex.set_path(a.cell, a.path, vb)
+    ex.set_path(b.cell, b.path, va)
+    return UNIT
+
+
+@model(r"(?:std|core)::mem::replace::<.*>$")
+def m_mem_replace(ex, st, callee, args, dty, m):
+    a, nv = args
+    if not isinstance(a, Ref):
+        return NotImplemented
+    old = ex.get_path(a.cell, a.path)
+    ex.set_path(a.cell, a.path, nv)
+    return old
+
+
 # ---------------------------------------------------------------- comparisons
 def bytes_eq(a, b, n=None):
     if n is None:
@@ -1323,10 +1345,82 @@ def m_make_contiguous(ex, st, callee, args, dty, m):
 
 @model(r"(?:std|core)::slice::<impl \[.*\]>::sort_by::<.*>$|(?:std|core)::slice::<impl \[.*\]>::sort_unstable_by::<.*>$")
 def m_sort_by_identity(ex, st, callee, args, dty, m):
+    if getattr(ex, "sort_real", False):
+        return _sort_driver(ex, st, args)
     # ASSUMPTION (stated by the obligations that reach this): the slice is already sorted by the
     # comparison closure, so a stable sort is the identity
     st.events.append(("assume-sorted", callee, args, None))
     return UNIT
+
+
+def _sort_driver(ex, st, args):
+    """sort_by over a tracked sequence of concrete length n (executors that set `sort_real`): a
+    bubble-sort network of n(n-1)/2 compare-exchange steps, each calling the real comparison closure
+    on the two current elements and swapping them when it answers Greater. For a comparator that is
+    a strict weak order the result is the stable sorted order."""
+    sref = args[0]
+    seq = deref(ex, sref)
+    if not isinstance(seq, Seq):
+        return NotImplemented
+    closure = args[1]
+    cbody = ex.closure_body(closure)
+    if cbody is None:
+        return NotImplemented
+    c, p = sref.cell, sref.path
+    vv = ex.get_path(c, p)
+    while isinstance(vv, Ref):
+        c, p = vv.cell, vv.path
+        vv = ex.get_path(c, p)
+    n = len(seq.items)
+    pairs = [(j, j + 1) for rnd in range(n - 1) for j in range(n - 1 - rnd)]
+    _DRIVER_COUNT[0] += 1
+    k = _DRIVER_COUNT[0]
+    b = _MIR.Body("__sort_by_%d" % k, "synthetic")
+    b.args = [("_1", "env"), ("_S", "seq")] + [("_%d" % (i + 2), "item") for i in range(n)]
+    b.locals = dict(b.args)
+    b.locals["_0"] = "()"
+    b.locals["_R"] = "Ordering"
+    b.locals["_G"] = "bool"
+    b.locals["_U"] = "()"
+    tok_call, tok_gt, tok_swap = "__closure_call__%d" % k, "__sort_is_gt__%d" % k, "__sort_swap__%d" % k
+
+    def is_gt(ex_, st_, callee_, a, dt, mm):
+        o = a[0]
+        d = ex_.discr_of(o)
+        if isinstance(d, I):
+            return d.bv == z3.BitVecVal(1, d.bv.size())
+        return z3.BoolVal(d == 1)
+
+    def swap(ex_, st_, callee_, a, dt, mm):
+        s = deref(ex_, a[0])
+        i, j = as_int(a[1]), as_int(a[2])
+        s.items[i], s.items[j] = s.items[j], s.items[i]
+        return UNIT
+    ex.models = [(re.compile(re.escape(tok_call) + "$"), lambda ex_, st_, callee_, a, dt, mm, cb=cbody: ("__inline__", cb, a)),
+                 (re.compile(re.escape(tok_gt) + "$"), is_gt), (re.compile(re.escape(tok_swap) + "$"), swap)] + list(ex.models)
+
+    def blk(name):
+        bb = _MIR.Block(name, False)
+        b.blocks[name] = bb
+        return bb
+    for t, (i, j) in enumerate(pairs):
+        bb = blk("bb%d" % (4 * t))
+        bb.term = ("call", ("local", "_R"), tok_call, [("copy", ("local", "_1")), ("copy", ("local", "_%d" % (i + 2))), ("copy", ("local", "_%d" % (j + 2)))], {"return": "bb%d" % (4 * t + 1)})
+        g = blk("bb%d" % (4 * t + 1))
+        g.term = ("call", ("local", "_G"), tok_gt, [("copy", ("local", "_R"))], {"return": "bb%d" % (4 * t + 2)})
+        sw = blk("bb%d" % (4 * t + 2))
+        sw.term = ("switch", ("copy", ("local", "_G")), [("0", "bb%d" % (4 * t + 4)), ("otherwise", "bb%d" % (4 * t + 3))])
+        sp = blk("bb%d" % (4 * t + 3))
+        sp.term = ("call", ("local", "_U"), tok_swap, [("copy", ("local", "_S")), ("const", "%d_usize" % i), ("const", "%d_usize" % j)], {"return": "bb%d" % (4 * t + 4)})
+    blk("bb%d" % (4 * len(pairs))).term = ("return",)
+    by_ref = cbody.args[0][1].lstrip().startswith("&")
+    env = closure
+    if by_ref and not isinstance(closure, Ref):
+        env = Ref(Cell(closure), (), True)
+    if not by_ref and isinstance(closure, Ref):
+        env = deref(ex, closure)
+    items = [Ref(c, p + (("i", u64(i)),), False) for i in range(n)]
+    return ("__inline__", b, [env, Ref(c, p, True)] + items)
 
 
 @model(r"VecDeque::<.*>::(iter_mut|iter)$|<&(?:mut )?VecDeque<.*> as IntoIterator>::into_iter$|(?:std|core)::slice::<impl \[.*\]>::iter_mut$|Vec::<.*>::iter_mut$|<&(?:mut )?Vec<.*> as IntoIterator>::into_iter$")
